@@ -173,14 +173,14 @@ PROPS = {
         "components": ["cancel", "pipeline"],
         "trusted_base": [
             "modelled, not verified: Go channel / select / WaitGroup / context semantics as Model/Engine.lean (see C08); Ctrl-C = step `cancelCmd`, enabled in every state, cancelling command ctx and derived ctx together; SIGINT delivery itself is runtime",
-            "generic-engine side only: the packet pipeline lemmas (Proofs/ConcPacket*.lean) are imported at the marked place of Props/C12.lean when available",
+            "packet side: the theorems C12_packet_no_panic / C12_packet_errc_closes are the C07 lemmas over Pipe.step (Proofs/ConcPacket*.lean); the pipeline component's cancel mode ties them to the code",
             "side conditions SingleCloser / CloseAfterSenders / GuardedOnReturnPath decided on descriptors regenerated by sxfacts/stages_engine.go",
         ],
         "assumptions": ["weak fairness: an enabled step of a return-path process is eventually taken (Go scheduler; select picks any ready case, so a worker may take further requests after the cancellation: the 5*|pending| term of the bound)",
                         "Scan, Write and limiter.Take() return (bounded by C09/C10 timeouts; with --rate a worker may sit in Take(), which is not ctx-aware, for up to W*window/N)",
                         "the harness's Scanner ignores ctx (worst case for the return time)"],
-        "level_text": "Lean theorems over Model/Engine.lean with Ctrl-C enabled in every state, by induction over Reachable, for every W, request list, producer script and schedule, i.e. every cancellation point: C12_no_panic (no send on a closed channel, no double close; errc closed => all W workers returned; results closed <=> copier returned), C12_progress (derived ctx cancelled and not returned => some return-path process can step), C12_rank_step + C12_bounded_return (ranking function: every return-path step strictly decreases it, no other step increases it after the cancel; along every execution at most rank steps), C12_rank_bound (rank <= 4*capRes + 2*capErr + 7*W + 5*|pending| + 12 = 4912 + 5*|pending| at the source's constants), C12_streams_end (returned => logger and drain returned, errc closed and empty, every sent error logged once), C12_whole_records (output grows only by one whole record per Write; only Put values are printed). Side conditions decided on regenerated descriptors. Tied to the code by cancelling the REAL engine + startScanEngine at the k-th Scan / Put / error / write for every k of short runs and with full buffers, in a child process (panic => recorded with goroutine dump), checking return time, complete lines, at-most-once counts.",
-        "level_note": "Partial: bounded STEPS under fairness, not bounded time (C12_full stated, not claimed); generic-engine side; packet side pending import. Trusted: Lean kernel; channel/select semantics of the transition system; sxfacts for descriptors.",
+        "level_text": "Lean theorems over Model/Engine.lean with Ctrl-C enabled in every state, by induction over Reachable, for every W, request list, producer script and schedule, i.e. every cancellation point: C12_no_panic (no send on a closed channel, no double close; errc closed => all W workers returned; results closed <=> copier returned), C12_progress (derived ctx cancelled and not returned => some return-path process can step), C12_rank_step + C12_bounded_return (ranking function: every return-path step strictly decreases it, no other step increases it after the cancel; along every execution at most rank steps), C12_rank_bound (rank <= 4*capRes + 2*capErr + 7*W + 5*|pending| + 12 = 4912 + 5*|pending| at the source's constants), C12_streams_end (returned => logger and drain returned, errc closed and empty, every sent error logged once), C12_whole_records (output grows only by one whole record per Write; only Put values are printed). Side conditions decided on regenerated descriptors. Tied to the code by cancelling the REAL engine + startScanEngine at the k-th Scan / Put / error / write for every k of short runs and with full buffers, in a child process (panic => recorded with goroutine dump), checking return time, complete lines, at-most-once counts. Packet side: the REAL NewPacketMultiGenerator/NewSender/PacketEngine pipeline cancelled at the k-th consumed request / started write / consumed error for every k of short runs (plain, slow writer, writer blocked until the error stream ended, error consumer starting at the cancel) and with every error channel full (> 300 errors, stalled consumer), in a child process: no panic, merged error channel closed within 2 s of the cancel, frames and errors at most once and byte-exact, and the observed event trace with the cancel event accepted by Pipe.step (search over the internal steps).",
+        "level_note": "Partial: bounded STEPS under fairness, not bounded time (C12_full stated, not claimed). After a cancel the packet sender may stay blocked on its unguarded `errc <- err` when errc is full (done is then never closed; startScanEngine does not wait for it): modelled (gSenderErr = false), observed (d=0 in fullerr cases), not a violation of the property. Trusted: Lean kernel; channel/select semantics of the transition system; sxfacts for descriptors.",
     },
     "C07": {
         "modules": ["SxVerif.Props.C07"],
@@ -193,9 +193,10 @@ PROPS = {
         ],
         "assumptions": ["the error stream has a consumer (startScanEngine drains it)",
                         "the run is not cancelled (cancellation is C12; the no-panic theorem does cover cancel)",
-                        "PacketFiller.Fill is a function of the request; a failed WritePacketData is reported once"],
-        "level_text": "Lean theorems over the small-step interleaving system Pipe.step (N workers + N multiplexers + closer + sender + 2 error multiplexers + closer + environment, bounded FIFO channels with closed flags, buffer pool with identities, cancel step) instantiated from the regenerated stage descriptors: side_conditions (SingleCloser, CloseAfterSenders, FreeAfterWrite, GetBeforeFill, CapsPositive, GuardedOnReturnPath, ShapeOk, by decide), C07_conserve_partial (token conservation: written + error-consumed + in flight = consumed requests + failed writes + receiver errors, as an invariant of every reachable state of every uncancelled schedule, any N, any request list, any writer failure pattern), C07_final_partial (Terminated => frames written + errors delivered = one frame per error-free request + one error per failed request/build/write/receiver error, as multisets), C07_done_partial (done closed => every error-free request has already been written), C07_no_panic (no send on closed / double close under every schedule incl. cancel), C07_errc_closes_after_cancel. Tied to the code by the real NewPacketMultiGenerator/PacketEngine/NewSender pipeline with a recording writer (frames multiset, errors multiset, done-after-last-write, bytes stable while the writer holds them), worker counts 1..64, >100 errors, slow and failing writers, and steered traces accepted by the model's step function.",
-        "level_note": "partial: frames are identified in the theorems by the request a written packet was made for; byte exactness C07_bytes_full (buffer exclusivity invariant BufInv) and C07_progress_full (no deadlock given an error consumer) are stated as defs, not proved; both are covered dynamically by the Spec verdict on every harness case (byte-exact multisets, bytes stable during the write, termination within the timeout). Trusted: Lean kernel; Go runtime semantics as modelled; sxfacts; the race-detector run (thorough) is supporting evidence only.",
+                        "PacketFiller.Fill is a function of the request; a failed WritePacketData is reported once",
+                        "at least one generator worker (NewPacketMultiGenerator is called with runtime.NumCPU() >= 1)"],
+        "level_text": "Lean theorems over the small-step interleaving system Pipe.step (N workers + N multiplexers + closer + sender + 2 error multiplexers + closer + environment incl. the error consumer, bounded FIFO channels with closed flags, buffer pool with identities and memory, cancel step) instantiated from the regenerated stage descriptors: side_conditions (SingleCloser, CloseAfterSenders, FreeAfterWrite, GetBeforeFill, CapsPositive, GuardedOnReturnPath, ShapeOk, by decide), C07_conserve (token conservation: written + error-consumed + in flight = consumed requests + failed writes + receiver errors, as an invariant of every reachable state of every uncancelled schedule, any N, any request list, any writer failure pattern), C07_buffer_exclusive (BufInv in every reachable state incl. cancel: buffer identities in in-flight packets / worker locals / sender local / pool pairwise distinct, memory of an in-flight buffer = the bytes built for its request), C07_bytes_full (the k-th byte string handed to WritePacketData = the frame built for the request of the k-th written packet), C07_final_full (Terminated => byte strings written = frames of the error-free requests and errors delivered = one per failed request/build/write/receiver error, as multisets), C07_done_full (done closed => all frames already written, byte level, and no write after done), C07_no_write_after_done (also when cancelled), C07_progress_full (no deadlock of an uncancelled run: Terminated or some non-cancel step enabled, the error consumer being the system step `consume`), C07_no_panic (no send on closed / double close under every schedule incl. cancel), C07_errc_closes_after_cancel. Necessity of FreeAfterWrite: free_before_write_breaks_bytes (swapped sender calls reach a state where the writer saw another request's bytes). Tied to the code by the real NewPacketMultiGenerator/PacketEngine/NewSender pipeline with a recording writer (frames multiset, errors multiset, done-after-last-write, bytes stable while the writer holds them), worker counts 1..64, >100 errors, slow and failing writers, steered traces accepted by the model's step function, and cancellation at every observable event (packet side of C12).",
+        "level_note": "Trusted: Lean kernel; Go runtime semantics as modelled (one channel operation / call per step, sync.Pool as a set of identities that may drop any pooled buffer); sxfacts; the race-detector run (thorough) is supporting evidence only. The final/done theorems need N >= 1 workers (sx passes runtime.NumCPU()).",
     },
     "C20": {
         "modules": ["SxVerif.Props.C20"],
